@@ -218,6 +218,8 @@ structure State where
   orchErr : Bool                  -- (fixed variant) the orchestrator was cancelled by a failed ensemble task
   t0 : Option Nat                 -- when `run_tasks` began to stop the root tasks
   tFail : Option Nat              -- ghost: when the first ESCALATING failure of a task happened (see `markFail`)
+  failWho : Option Task           -- ghost: whose failure that was (startup: `startupCleanup`; core task: `coreWatcher`)
+  orchStopAt : Option Nat         -- ghost: when the orchestrator began to stop its ensemble
   exitAt : Option Nat
   result : Option Res
   -- history (ghost) variables
@@ -236,7 +238,7 @@ def init : State :=
   { now := 0, st := initSt, creq := fun _ => false, werr := fun _ => false,
     kind := fun _ => .watcher, nSubs := 0, withdrawn := fun _ => false, gone := fun _ => false,
     wk := fun _ => none, nWorkers := 0, dm := fun _ => .absent, nDaemons := 0,
-    coop := fun _ => false, stopReq := fun _ => false, withdrawnOk := fun _ => false, tFail := none,
+    coop := fun _ => false, stopReq := fun _ => false, withdrawnOk := fun _ => false, tFail := none, failWho := none, orchStopAt := none,
     core := .waitingFlag, coreCreq := false, started := false, ready := false,
     sc := .init, rt := .waiting, stopFlagSet := false, waiter := true, orphans := 0, killed := false,
     orchErr := false, t0 := none, exitAt := none, result := none,
@@ -387,6 +389,12 @@ def markFail (s : State) : Option Nat :=
   | some t => some t
   | none => some s.now
 
+/-- ghost: … and whose failure it was -/
+def markWho (s : State) (t : Task) : Option Task :=
+  match s.tFail with
+  | some _ => s.failWho
+  | none => some t
+
 /-- `daemon_killer`'s `finally:`: one exit stopper per daemon that is running now -/
 def stopReqNow (s : State) : Nat → Bool :=
   fun d => s.stopReq d || (decide (d < s.nDaemons) && s.dm d == .running)
@@ -419,7 +427,7 @@ def step (cfg : Cfg) (s : State) : Label → Option State
       match o with
       | .none => some { s with sc := .startupOk, startupDone := true }
       | .failed => some { s with sc := .stopCore .failed, startupFailed := true, startupRaised := true,
-                                 tFail := markFail s }
+                                 tFail := markFail s, failWho := markWho s (.root .startupCleanup) }
       | .cancelled =>
         if s.creq (.root .startupCleanup) = true then
           some { s with sc := .stopCore .cancelled, startupFailed := true,
@@ -485,7 +493,8 @@ def step (cfg : Cfg) (s : State) : Label → Option State
       | .cancelled => if s.coreCreq = true then some { s with core := .cancelled, coreCreq := false } else none
       | .failed =>
         if s.core = .running then
-          some { s with core := .failed, tFail := if cfg.coreWatched then markFail s else s.tFail }
+          some { s with core := .failed, tFail := if cfg.coreWatched then markFail s else s.tFail,
+                        failWho := if cfg.coreWatched then markWho s (.root .coreWatcher) else s.failWho }
         else none
       | _ => none
     else none
@@ -496,7 +505,8 @@ def step (cfg : Cfg) (s : State) : Label → Option State
         -- the watcher's `finally:`: a stream failure or a failed worker (`fail`), or a plain cancellation
         if fail = true ∨ (s.creq (.root r) = true ∧ s.werr (.root r) = false) then
           some { s with st := upd s.st (.root r) (.stopping fail (some (s.now + cfg.E))),
-                        creq := upd s.creq (.root r) false, tFail := if fail then markFail s else s.tFail }
+                        creq := upd s.creq (.root r) false, tFail := if fail then markFail s else s.tFail,
+                        failWho := if fail then markWho s (.root r) else s.failWho }
         else none
       | .killer =>
         -- `finally:` spawn an exit stopper per running daemon, `await scheduler.wait()`.
@@ -510,7 +520,7 @@ def step (cfg : Cfg) (s : State) : Label → Option State
         -- `except CancelledError: await stop(ensemble tasks); raise`
         if s.creq (.root r) = true ∧ fail = s.orchErr then
           some { s with st := upd s.st (.root r) (.stopping fail none),
-                        creq := upd (cancelSubs s) (.root r) false }
+                        creq := upd (cancelSubs s) (.root r) false, orchStopAt := some s.now }
         else none
       | _ => none
     else none
@@ -518,7 +528,9 @@ def step (cfg : Cfg) (s : State) : Label → Option State
     if s.rt ≠ .exited ∧ how.ended = true then
       let fin : State := { s with st := upd s.st (.root r) how, creq := upd s.creq (.root r) false,
                                   rootFailed := s.rootFailed || how == .failed,
-                                  tFail := if how = .failed ∧ s.st (.root r) = .running then markFail s else s.tFail }
+                                  tFail := if how = .failed ∧ s.st (.root r) = .running then markFail s else s.tFail,
+                                  failWho := if how = .failed ∧ s.st (.root r) = .running then markWho s (.root r)
+                                             else s.failWho }
       match r.kind with
       | .flagChecker =>
         if s.st (.root r) = .running ∧ how = .done ∧ (s.stopFlagSet = true ∨ s.creq (.root r) = true) then some fin
@@ -527,13 +539,15 @@ def step (cfg : Cfg) (s : State) : Label → Option State
         if s.st (.root r) = .running ∧ how = .done ∧ s.creq (.root r) = true then some fin else none
       | .startupCleanup =>
         match s.sc with
-        | .over p => if s.st (.root r) = .running ∧ how = p.ts then some { fin with tFail := s.tFail } else none
+        | .over p =>
+          if s.st (.root r) = .running ∧ how = p.ts then some { fin with tFail := s.tFail, failWho := s.failWho }
+          else none
         | _ => none
       | .coreWatch =>
         -- `await wait(core_tasks, FIRST_COMPLETED); reraise(done)` — exists only in the variant `coreWatched`
         if s.st (.root r) = .running ∧ how = .cancelled ∧ s.creq (.root r) = true then some fin
         else if s.st (.root r) = .running ∧ how = .failed ∧ cfg.coreWatched = true ∧ s.core = .failed then
-          some { fin with tFail := s.tFail }
+          some { fin with tFail := s.tFail, failWho := s.failWho }
         else none
       | .simple =>
         if (s.st (.root r) = .waitingFlag ∨ s.st (.root r) = .running) ∧ how = .cancelled ∧ s.creq (.root r) = true then
@@ -583,7 +597,8 @@ def step (cfg : Cfg) (s : State) : Label → Option State
         ∧ (fail = true ∨ (s.creq (.sub i) = true ∧ s.werr (.sub i) = false)) then
       some { s with st := upd s.st (.sub i) (.stopping fail (some (s.now + grace cfg s (.sub i)))),
                     creq := upd s.creq (.sub i) false,
-                    tFail := if fail = true ∧ cfg.fixed = true then markFail s else s.tFail }
+                    tFail := if fail = true ∧ cfg.fixed = true then markFail s else s.tFail,
+                    failWho := if fail = true ∧ cfg.fixed = true then markWho s (.sub i) else s.failWho }
     else none
   | .subGone i =>
     -- the (re-)listing of the watcher got HTTP 404 (`APINotFoundError`): the resource is gone, e.g. its CRD was
@@ -653,7 +668,9 @@ def step (cfg : Cfg) (s : State) : Label → Option State
             some { s with wk := upd s.wk w (some (o, .failed)), werr := upd s.werr o true,
                           creq := upd s.creq o true,
                           tFail := if (match o with | .root _ => true | .sub _ => cfg.fixed) = true then markFail s
-                                   else s.tFail }
+                                   else s.tFail,
+                          failWho := if (match o with | .root _ => true | .sub _ => cfg.fixed) = true then markWho s o
+                                     else s.failWho }
           -- the watcher is already in its `finally:` (or has a first error): the failure is only logged
           else some { s with wk := upd s.wk w (some (o, .failed)) }
       | _ => none
